@@ -8,7 +8,7 @@ A = {
     "A5": "A5: left-to-right evaluation, no operator overloading other than NumPy's",
     "A6": "A6: only exceptions named in a contract occur (no MemoryError/KeyboardInterrupt); a/b is a field operation (ZeroDivision outside the model)",
     "A7": "A7: SHA-256 injective; ndarray.tobytes()/repr injective on the hashed values",
-    "A8": "A8: transcendental functions are uninterpreted symbols constrained by named axiom instances only",
+    "A8": "A8: transcendental functions are uninterpreted symbols constrained by named axiom instances only (log/exp inverse pair and power laws are applied to POSITIVE arguments/bases: NaN/complex results of log or fractional powers of non-positive reals are outside the model; exact trigonometric identities)",
     "CPY": "function bodies are extracted mechanically from /repo/src on every run and executed by CPython on symbolic proxies; the proxies model int/float/complex/list/dataclass values and the NumPy index operations used (pad, slices, fftshift/ifftshift, fftfreq, meshgrid, masks, fancy index, squeeze, linspace)",
     "SLICE": "slices are treated as copies (no function under contract writes through a slice alias)",
 }
